@@ -227,6 +227,8 @@ def real_side(ctx):
     metas = [r[1] for r in results]
     verdicts, stats = tlc.validate_batch("PidfileRealTrace", "PidfileRealTrace.cfg", traces, name="PidfileRealTrace_C17")
     ctx.add_traces(len(traces), stats)
+    tlc.repeat_failing(ctx, "PidfileRealTrace", "PidfileRealTrace.cfg", traces, metas, verdicts, range(len(plan)),
+                       lambda k: run(plan[k], k), "PidfileRealTrace_C17")
     ctx.coverage["real_process_masters"] = len(traces)
     for t, m, (v, step) in zip(traces, metas, verdicts):
         if v == "ok":
